@@ -481,6 +481,7 @@ def check(prop, tier, seed):
     results = []
     violations = []  # dicts: key, kind, entry, case, detail, replay info
     inconclusive = []
+    confirmed_hangs = set()
 
     def handle(res, depth=0):
         """Process one finished partition; returns list of follow-up results."""
@@ -538,7 +539,16 @@ def check(prop, tier, seed):
                                 (h.name, res['part'], res['rc'], kind, tail[-1500:]))
             return
         if witness['kind'] == 'alarm':
+            hkey = '%s:%s/hang' % (h.name, entry_of(witness['case']))
+            if depth < 100 and hkey in confirmed_hangs:
+                # a hang of this entry was already confirmed (by a re-run with three times the budget): further cases of
+                # the same entry are recorded as occurrences, not re-verified one by one (each would cost minutes)
+                violations.append({'key': hkey, 'kind': 'hang', 'entry': entry_of(witness['case']), 'case': witness['case'],
+                                   'detail': 'case did not finish within the watchdog budget (entry already confirmed as hanging)',
+                                   'harness': h.name, 'part': res['part'], 'nparts': res['nparts'], 'idx': witness['idx']})
+                return
             if depth >= 100:  # this *is* the re-run
+                confirmed_hangs.add(hkey)
                 violations.append({'key': '%s:%s/hang' % (h.name, entry_of(witness['case'])), 'kind': 'hang',
                                    'entry': entry_of(witness['case']), 'case': witness['case'],
                                    'detail': 'case did not finish within the watchdog budget twice',
@@ -549,7 +559,7 @@ def check(prop, tier, seed):
             r2 = run_part(h, tier, seed, res['part'], res['nparts'], rundir, only=witness['idx'],
                           attempt=res['attempt'] + 100, alarm=(h.alarm or 60) * 3)
             handle(r2, depth=100)
-            if depth < 10 and not after_stats:
+            if depth < 2 and not after_stats:
                 r3 = run_part(h, tier, seed, res['part'], res['nparts'], rundir, frm=witness['idx'] + 1,
                               attempt=res['attempt'] + 1)
                 results.append(r3)
